@@ -73,8 +73,9 @@ Definition replacement_index_drawn_from_finite_rows : bool := true.
 class Schedule:
     """likelihood that is finite exactly on the first m_k evaluations of warm-up batch k"""
 
-    def __init__(self, n, ms):
-        self.n, self.ms, self.calls = n, ms, 0
+    def __init__(self, n, ms, deep=False):
+        # deep: some of the FINITE values are far below log(DBL_MIN) (their exp underflows): small likelihood is not zero likelihood
+        self.n, self.ms, self.calls, self.deep = n, ms, 0, deep
 
     def __call__(self, x):
         if np.ndim(x) == 2:  # vectorised evaluation: one value per row, in row order
@@ -83,13 +84,15 @@ class Schedule:
         self.calls += 1
         if k < len(self.ms) and j >= self.ms[k]:
             return -np.inf
+        if self.deep and j % 3:
+            return (-800.0, -1e5)[j % 3 - 1] - 0.5 * float(np.sum(x ** 2))
         return -0.5 * float(np.sum(x ** 2))
 
 
-def drive(n, ms, seed, extra_iters=2, vectorize=False):
+def drive(n, ms, seed, extra_iters=2, vectorize=False, deep=False):
     from tempest import Sampler
     np.random.seed(seed)
-    like = Schedule(n, ms)
+    like = Schedule(n, ms, deep)
     K = len(ms)
     s = Sampler(lambda u: 4 * u - 2, like, n_dim=2, n_particles=n, ess_ratio=float(K), clustering=False, vectorize=vectorize)
     s._core._initialize_fresh()
@@ -117,9 +120,10 @@ def sweep(run, tier, rng):
             ms = [rng.randint(1, n) for _ in range(K)]
         seed = rng.randrange(2 ** 31)
         vec = t % 3 == 2
-        what = dict(n_particles=n, finite_counts=ms, np_seed=seed, vectorize=vec)
+        deep = t % 4 in (1, 2)
+        what = dict(n_particles=n, finite_counts=ms, np_seed=seed, vectorize=vec, finite_values_below_log_dbl_min=deep)
         try:
-            s, rec = drive(n, ms, seed, vectorize=vec)
+            s, rec = drive(n, ms, seed, vectorize=vec, deep=deep)
         except Exception as e:
             run.fail("warmup-raises", f"warm-up raised {type(e).__name__}: {e}", **what)
             continue
@@ -131,6 +135,13 @@ def sweep(run, tier, rng):
         logl_hist = s.state.get_history("logl", flat=True)
         if np.any(np.isinf(logl_hist)) or np.any(logl_hist < -1e300):
             run.fail("inf-particle-stored", "a zero-likelihood particle was committed to history", **what)
+        # excluded means excluded in every coordinate system: the stored unit-cube position of a replaced draw is the donor's
+        u_hist = s.state.get_history("u", flat=True)
+        x_hist = s.state.get_history("x", flat=True)
+        if u_hist.shape != x_hist.shape or not np.array_equal(4 * u_hist - 2, x_hist):
+            badrow = int(np.argmax(np.any(4 * u_hist - 2 != x_hist, axis=1))) if u_hist.shape == x_hist.shape else -1
+            run.fail("zero-likelihood-position-stored", f"stored row {badrow}: the unit-cube position does not map to the stored (finite-likelihood) "
+                     f"parameters: the position of a zero-likelihood draw was kept", **what)
         fr = [Fraction(m, n) for m in ms]
         lo, hi = math.log(float(min(fr))), 0.0
         for k, (b, lz) in enumerate(rec):
